@@ -5,7 +5,7 @@
 (* PubSub.tla, stated on the history:                                        *)
 (*   Delivered  a subscriber whose Subscribe returned before a Publish was   *)
 (*              called and that has not started to unsubscribe when the      *)
-(*              publisher side is quiet (three flush windows after the last  *)
+(*              publisher side is quiet (nine flush windows after the last   *)
 (*              Publish returned) has received a notification from that      *)
 (*              author after the Publish was called - or its stream closed   *)
 (*   NoLeak     once everybody has unsubscribed no subscriber is listed      *)
